@@ -1,4 +1,8 @@
 import NavisModel.Proofs.VolumeLemmas
+import NavisModel.Proofs.VolCacheLemmas
+import NavisModel.Gen.VolCache
+import NavisModel.Proofs.InVolumeShapeLemmas
+import NavisModel.Gen.InVolume
 /-!
 # C18 — inside/outside tests and nearest-neighbour snapping are geometrically exact
 
@@ -99,6 +103,13 @@ theorem pose_needs_proper_boxes :
     ¬ badBox.ok ∧ inBox badBox ⟨4, 1, 1⟩ = false
       ∧ inBox ((default : Pose).box badBox) ((default : Pose).pt ⟨4, 1, 1⟩) = true := by
   decide
+
+/-- **Any chain of integer poses** (what a volume history does to one Volume object: `apply_translation`, `apply_scale`,
+`apply_transform`, vertex assignment, `vol.vertices *= k`, `resize` … one after the other): the solid the model holds after
+the chain contains the image of a point iff the original solid contained the point. -/
+theorem membership_pose_chain_invariant (πs : List Pose) (hπ : ∀ π ∈ πs, π.ok) (S : Solid) (hS : ∀ sb ∈ S, sb.2.ok)
+    (p : P3) : mem (poseChainSolid πs S) (poseChainPt πs p) = mem S p :=
+  mem_poseChain πs hπ S hS p
 
 /-- **`in_volume(points, vol)`** answers every point by itself, in order. -/
 theorem mask_exact (μ : Inside) (pts : List P3) :
@@ -496,5 +507,319 @@ theorem checkNearest_sound (data : List P3) (p : P3) (ix : Nat) (dd : Int) :
 theorem checkMask_sound (μ : Inside) (pts : List P3) (mask : List Bool) :
     checkMask μ pts mask = true ↔ mask = pts.map μ := by
   simp [checkMask, inVolumePoints]
+
+/-! ## 6. the ray-casting structure cached on the Volume: an answer is computed from the *current* geometry
+
+Vocabulary (`Model/VolCache.lean`): a `Spec` lists, per back-end, the plain attribute of the Volume object in which the
+acceleration structure is kept between calls (if any), per in-place mutator the attributes it deletes, and what pickling
+drops.  `exec s st ops` runs a history (queries, in-place mutators, copy-like derivations, pickle round trips — on any number
+of Volume objects) and returns, per query, the geometry the answer was computed from (`used`) and the geometry of the queried
+object at that moment (`current`).  `Gen.VolCache.spec` is re-extracted from the navis source on every run. -/
+
+open Navis.VolCache in
+/-- **cached_structure_answers_current.**  For every spec, every set `A` of attribute names, every store whose `A`-entries
+are fresh and every history in which each queried back-end keeps its structure (if at all) under a name in `A` and each
+in-place mutator deletes all of `A`: *every* answer is computed from the current geometry of the queried object — whatever
+the geometries, ray counts, objects, copies and pickles involved. -/
+theorem cached_structure_answers_current {G : Type} (s : Spec) (A : List String) (st : Store G) (ops : List (Op G))
+    (h0 : StoreFresh A st)
+    (hq : ∀ i b r, Op.query i b r ∈ ops → ∀ a, s.attrOf b = some a → a ∈ A)
+    (hm : ∀ i m f, Op.mutate i m f ∈ ops → ∀ a ∈ A, a ∈ s.clearsOf m) :
+    ∀ ans ∈ (exec s st ops).2, ans.used = ans.current := by
+  refine (exec_spec s A ops st h0 ?_).2
+  intro op hop
+  cases op with
+  | query i b r => exact hq i b r hop
+  | mutate i m f => exact hm i m f hop
+  | copy i f => trivial
+  | pickle i => trivial
+
+open Navis.VolCache in
+/-- **Back-ends without a cache are always current** — from *any* store (even one carrying stale structures of other
+back-ends) and under *any* mutators, listed or not. -/
+theorem uncached_backends_always_current {G : Type} (s : Spec) (st : Store G) (ops : List (Op G))
+    (hq : ∀ i b r, Op.query i b r ∈ ops → s.attrOf b = none) :
+    ∀ ans ∈ (exec s st ops).2, ans.used = ans.current := by
+  refine cached_structure_answers_current s [] st ops ?_ ?_ ?_
+  · intro o _ e _ he; cases he
+  · intro i b r h a ha; rw [hq i b r h] at ha; cases ha
+  · intro i m f _ a ha; cases ha
+
+open Navis.VolCache in
+/-- **Covered back-ends are always current.**  If the decidable condition `coversB s bs` holds (every listed mutator deletes
+the cache attribute of every back-end in `bs`), then every history that starts from fresh Volume objects, queries only
+back-ends in `bs` and uses only listed mutators answers every query from the current geometry. -/
+theorem covered_backends_always_current {G : Type} (s : Spec) (bs : List String) (hc : coversB s bs = true)
+    (gs : List G) (ops : List (Op G))
+    (hq : ∀ i b r, Op.query i b r ∈ ops → b ∈ bs)
+    (hm : ∀ i m f, Op.mutate i m f ∈ ops → m ∈ s.mutatorNames) :
+    ∀ ans ∈ (exec s (gs.map Obj.fresh) ops).2, ans.used = ans.current := by
+  refine cached_structure_answers_current s (bs.filterMap s.attrOf) _ ops ?_ ?_ ?_
+  · intro o ho
+    obtain ⟨g, _, rfl⟩ := List.mem_map.mp ho
+    exact freshFor_fresh _ g
+  · intro i b r h a ha
+    exact List.mem_filterMap.mpr ⟨b, hq i b r h, ha⟩
+  · intro i m f h a ha
+    obtain ⟨b, hb, hab⟩ := List.mem_filterMap.mp ha
+    exact coversB_spec s bs hc b hb a hab m (hm i m f h)
+
+open Navis.VolCache in
+/-- **The converse: an uncovered pair has a stale history.**  If back-end `be` keeps its structure under attribute `a` and
+mutator `m` does not delete `a`, then *query → `m` → query* on one fresh Volume answers the second query from the OLD
+geometry `g` although the object now has geometry `f g` — for every geometry, every change `f` and every ray count.
+(So freedom from stale answers is *equivalent* to coverage; with `vol.vertices *= k` among the mutators — an array write no
+method can intercept — no unconditional cache on the object is sound.) -/
+theorem stale_history_of_uncovered {G : Type} (s : Spec) (be : Backend) (a m : String) (r : Nat) (g : G) (f : G → G)
+    (hb : s.backend be.name = some be) (hattr : be.attr = some a) (hm : a ∉ s.clearsOf m) :
+    (exec s [Obj.fresh g] [.query 0 be.name r, .mutate 0 m f, .query 0 be.name r]).2 = [⟨g, g⟩, ⟨g, f g⟩] :=
+  stale_history s be a m r g f hb hattr hm
+
+/-! ### the facts extracted from the current source -/
+
+open Navis.VolCache in
+/-- **Tie to the source (translator).**  In the navis source as it is now, every listed in-place mutator of `Volume` (own and
+inherited, including the array write `vol.vertices *= k`) deletes every attribute under which the `ncollpyde` and the `scipy`
+back-end keep a structure on the Volume object.  (Today: they keep none.  Caching the `ncollpyde` structure on the volume
+without keying it by the mesh makes this `decide` fail.) -/
+theorem ncollpyde_scipy_cache_covered : coversB Navis.Gen.VolCache.spec ["ncollpyde", "scipy"] = true := by decide
+
+/-- every attribute a back-end stores unconditionally on the volume is represented in the spec -/
+theorem no_unmodelled_cache_attrs : Navis.Gen.VolCache.extraAttrs = [] := by decide
+
+open Navis.VolCache in
+/-- **ncollpyde / scipy answer for the current mesh, for every history** of queries (any ray counts), listed in-place
+mutators, copies, `vol * k`, `resize`, pickling, on any number of Volume objects created fresh. -/
+theorem ncollpyde_scipy_answers_current {G : Type} (gs : List G) (ops : List (Op G))
+    (hq : ∀ i b r, Op.query i b r ∈ ops → b ∈ ["ncollpyde", "scipy"])
+    (hm : ∀ i m f, Op.mutate i m f ∈ ops → m ∈ Navis.Gen.VolCache.spec.mutatorNames) :
+    ∀ ans ∈ (exec Navis.Gen.VolCache.spec (gs.map Obj.fresh) ops).2, ans.used = ans.current :=
+  covered_backends_always_current _ _ ncollpyde_scipy_cache_covered gs ops hq hm
+
+/-- the mutators the histories of the harness use are all listed -/
+example : ∀ m ∈ ["apply_translation", "apply_transform", "apply_scale", "vertices.setter", "faces.setter", "verts.setter",
+    "vertices[in-place-array-op]", "resize"], m ∈ Navis.Gen.VolCache.spec.mutatorNames := by decide
+
+open Navis.VolCache in
+/-- **All back-ends, clearing mutators only — partial.**  Full statement wanted by the property text: *for every history and
+every back-end the answer is computed from the current geometry.*  That is false for a back-end that keeps its structure on
+the object under an attribute some mutator does not delete (`stale_history_of_uncovered`; in the current source: the
+`pyoctree` back-end with every mutator other than `Volume.resize`, see `pyoctree_style_cache_goes_stale`).  Proved here, for
+every spec: histories whose in-place mutators all belong to `clearingMutators s` (they delete the cache attribute of every
+back-end) answer every query — by any back-end — from the current geometry. -/
+theorem all_backends_current_under_clearing_mutators_partial {G : Type} (s : Spec) (gs : List G) (ops : List (Op G))
+    (hm : ∀ i m f, Op.mutate i m f ∈ ops → m ∈ clearingMutators s) :
+    ∀ ans ∈ (exec s (gs.map Obj.fresh) ops).2, ans.used = ans.current := by
+  refine cached_structure_answers_current s (s.backends.filterMap (·.attr)) _ ops ?_ ?_ ?_
+  · intro o ho
+    obtain ⟨g, _, rfl⟩ := List.mem_map.mp ho
+    exact freshFor_fresh _ g
+  · intro i b r _ a ha
+    exact attrOf_mem_allAttrs s b a ha
+  · intro i m f h a ha
+    exact mem_clearingMutators s m (hm i m f h) a ha
+
+/-- **Tie to the source:** `Volume.resize` — the one in-place mutator navis itself defines — deletes the cache attribute of
+every back-end (dropping the `delattr` in `resize`, or renaming the attribute on one side only, breaks this). -/
+theorem volume_resize_clears_every_cache : "resize" ∈ Navis.VolCache.clearingMutators Navis.Gen.VolCache.spec := by decide
+
+open Navis.VolCache in
+/-- the cache protocol of the source at the time of writing, as a literal (NOT the generated spec: this counter-example
+documents the open finding and must not stop checking when navis repairs it) -/
+def pyocSpec : Spec :=
+  { backends := [⟨"ncollpyde", none, false⟩, ⟨"pyoctree", some "pyoctree", false⟩, ⟨"scipy", none, false⟩],
+    mutators := [⟨"resize", ["pyoctree"]⟩, ⟨"apply_translation", []⟩], pickleDrops := [] }
+
+open Navis.VolCache in
+/-- **Counter-example to the full statement (open finding).**  With the `pyoctree` back-end: query, `apply_translation`
+(geometry 0 ↦ 1), query again — the second answer is computed from geometry 0; after `resize` (1 ↦ 2) the answer is current
+again; a pickled copy carries the structure along, a `copy()` does not. -/
+theorem pyoctree_style_cache_goes_stale :
+    (exec pyocSpec [Obj.fresh (0 : Nat)]
+      [.query 0 "pyoctree" 1, .mutate 0 "apply_translation" (· + 1), .query 0 "pyoctree" 1,
+       .pickle 0, .mutate 1 "apply_translation" (· + 10), .query 1 "pyoctree" 1,
+       .copy 0 id, .query 2 "pyoctree" 1,
+       .mutate 0 "resize" (· + 1), .query 0 "pyoctree" 1, .query 0 "ncollpyde" 3]).2.map (fun a => (a.used, a.current))
+      = [(0, 0), (0, 1), (0, 11), (1, 1), (2, 2), (2, 2)] := by decide
+
+/-- … while the same history is answered correctly throughout by a back-end without a cache -/
+example :
+    (Navis.VolCache.exec pyocSpec [Navis.VolCache.Obj.fresh (0 : Nat)]
+      [.query 0 "ncollpyde" 3, .mutate 0 "apply_translation" (· + 1), .query 0 "ncollpyde" 3,
+       .mutate 0 "vertices[in-place-array-op]" (· * 2), .query 0 "ncollpyde" 1]).2.map (fun a => (a.used, a.current))
+      = [(0, 0), (1, 1), (2, 2)] := by decide
+
+/-! ## 7. voxel neurons, back-end selection, ray counts, duplicate names in `intersection_matrix` -/
+
+/-- **in_out_partition (voxel neurons).**  For every inside test and every voxel table: `IN` keeps exactly the voxels whose
+centre (`voxel · units + units/2 + offset`) is inside, `OUT` exactly the others, in table order; together they are a
+permutation of the table.  No hypothesis. -/
+theorem vox_in_out_partition (μ : Inside) (v : Vox) :
+    (inVolumeVox μ .IN v).cells = v.cells.filter (fun c => μ (v.centre2 c))
+    ∧ (inVolumeVox μ .OUT v).cells = v.cells.filter (fun c => !μ (v.centre2 c))
+    ∧ ((inVolumeVox μ .IN v).cells ++ (inVolumeVox μ .OUT v).cells).Perm v.cells := by
+  have hI := inVolumeVox_cells μ .IN v
+  have hO := inVolumeVox_cells μ .OUT v
+  refine ⟨hI, hO, ?_⟩
+  rw [hI, hO]
+  exact List.filter_append_perm _ _
+
+/-- **Each voxel keeps its own value.**  The kept `(voxel, value)` rows are exactly the rows of the input whose voxel is
+kept — the two parallel arrays `x.voxels[in_v]`, `x.values[in_v]` stay aligned. -/
+theorem vox_values_travel (μ : Inside) (mode : Mode) (v : Vox) (h : v.values.length = v.cells.length) :
+    (inVolumeVox μ mode v).cells.zip (inVolumeVox μ mode v).values
+      = (v.cells.zip v.values).filter fun cv => keepPred μ mode (v.centre2 cv.1) :=
+  inVolumeVox_rows μ mode v h
+
+/-- voxel centres are half-integer points — never on the surface of a box complex — whenever the voxel size is odd -/
+theorem vox_centres_off_surface (v : Vox) (c : P3) (b : Box)
+    (hu : v.units.x % 2 = 1 ∧ v.units.y % 2 = 1 ∧ v.units.z % 2 = 1) :
+    inBox b (v.centre2 c) = inBoxClosed b (v.centre2 c) :=
+  inBox_eq_inBoxClosed b _ (half_centre2 v c hu)
+
+def exVox : Vox := ⟨[⟨0, 0, 0⟩, ⟨1, 0, 0⟩, ⟨5, 0, 0⟩, ⟨0, 1, 1⟩, ⟨-3, 0, 0⟩], [10, 20, 30, 40, 50], ⟨1, 1, 1⟩, ⟨0, 0, 0⟩⟩
+example : exVox.values.length = exVox.cells.length := by decide
+example : inVolumeVox (mem exCube) .IN exVox = ⟨[⟨0, 0, 0⟩, ⟨1, 0, 0⟩, ⟨0, 1, 1⟩], [10, 20, 40]⟩
+    ∧ inVolumeVox (mem exCube) .OUT exVox = ⟨[⟨5, 0, 0⟩, ⟨-3, 0, 0⟩], [30, 50]⟩ := by decide
+
+theorem checkVoxKept_sound (μ : Inside) (mode : Mode) (v : Vox) (kept : List (P3 × Int)) :
+    checkVoxKept μ mode v kept = true
+      ↔ kept = (v.cells.zip v.values).filter fun cv => keepPred μ mode (v.centre2 cv.1) := by
+  unfold checkVoxKept
+  cases mode <;> simp [keepPred]
+
+/-- **Back-end selection.**  `in_volume` uses the first requested back-end that is available (`scipy` always is): everything
+requested before it is unavailable; nothing is selected (navis raises `ValueError`) iff nothing requested is available. -/
+theorem backend_selection_first_available (av : String → Bool) (bs : List String) :
+    (∀ b, selectBackend av bs = some b →
+      ∃ pre post, bs = pre ++ b :: post ∧ (b = "scipy" ∨ av b = true) ∧ ∀ c ∈ pre, c ≠ "scipy" ∧ av c = false)
+    ∧ (selectBackend av bs = none ↔ ∀ c ∈ bs, c ≠ "scipy" ∧ av c = false) :=
+  ⟨fun b h => selectBackend_spec av bs b h, selectBackend_none av bs⟩
+
+/-- the default request `('ncollpyde', 'pyoctree')` with only ncollpyde installed, and a pyoctree-first request -/
+example : selectBackend (· == "ncollpyde") ["ncollpyde", "pyoctree"] = some "ncollpyde"
+    ∧ selectBackend (· == "ncollpyde") ["pyoctree", "ncollpyde"] = some "ncollpyde"
+    ∧ selectBackend (· == "ncollpyde") ["pyoctree", "scipy"] = some "scipy"
+    ∧ selectBackend (· == "ncollpyde") ["pyoctree"] = none := by decide
+
+/-- **Ray counts.**  `None` means the back-end's default, a positive count is used as given, anything else is refused — no
+request is silently replaced by another count. -/
+theorem rays_as_requested (d : Nat) :
+    effRays d none = .ok d ∧ (∀ n : Nat, 0 < n → effRays d (some (n : Int)) = .ok n)
+    ∧ (∀ n : Int, n ≤ 0 → effRays d (some n) = .valueError) := by
+  refine ⟨rfl, ?_, ?_⟩
+  · intro n hn
+    simp [effRays]
+    omega
+  · intro n hn
+    simp [effRays, hn]
+
+/-- **`intersection_matrix` with a *list* of volumes — counter-example to "every volume is answered under its own name"
+(open finding).**  The list is turned into `{v.name: v for v in volumes}` without the duplicate check `in_volume` makes
+(`volumes_list`): of two volumes with the same name only the last one is answered — in the position of the first. -/
+theorem intersection_matrix_list_drops_duplicate_name :
+    intersectionMatrix mem (fun t => t.nodes.length) .IN
+        (mkDict [("LH", exCube), ("MB", exBar), ("LH", exL)]) [exTree]
+      = [("LH", [3]), ("MB", [2])]
+    ∧ (inVolumeTree (mem exCube) .IN exTree).nodes.length = 4 := by decide
+
+/-! ## 8. the shape of `in_volume` in the current source is the shape of the model
+
+`Gen.InVolume.shape` is re-extracted on every run (tri-state facts: `none` = pattern not recognised, nothing claimed).  The
+driver evaluates `inVolumeTreeAs Gen.InVolume.shape` etc. — the model *as the source is shaped* — and the theorems below say
+that for the current source this is the model the sections above are about. -/
+
+/-- **Tie to the source (translator).**  Nothing the translator recognises in `in_volume` / `prune_by_volume` deviates from
+the model: the `OUT` inversion stands before the `if not all(in_v)` short-circuit and is triggered by `'OUT'`, the mask is
+computed with `mode='IN'`, the loops over volumes / neurons and `prune_by_volume` forward `mode`, skeletons are subset by node
+id, and the default mode is `'IN'`. -/
+theorem source_shape_ok : Navis.Gen.InVolume.shape.ok = true := by decide
+
+/-- … hence the as-extracted functions *are* the model functions of sections 2–3, for every input. -/
+theorem source_shape_is_model (μ : Inside) (mode : Mode) :
+    (∀ t, inVolumeTreeAs Navis.Gen.InVolume.shape μ mode t = inVolumeTree μ mode t)
+    ∧ (∀ t, pruneByVolumeAs Navis.Gen.InVolume.shape μ mode t = pruneByVolume μ mode t)
+    ∧ (∀ ts, inVolumeListAs Navis.Gen.InVolume.shape μ mode ts = inVolumeList μ mode ts)
+    ∧ Navis.Gen.InVolume.shape.dictMode mode = mode :=
+  ⟨fun t => inVolumeTreeAs_eq _ source_shape_ok μ mode t, fun t => pruneByVolumeAs_eq _ source_shape_ok μ mode t,
+   fun ts => inVolumeListAs_eq _ source_shape_ok μ mode ts, dictMode_eq _ source_shape_ok mode⟩
+
+/-- **in_out_partition for the source as it is shaped now** (same statement as `in_out_partition`, about the as-extracted
+function). -/
+theorem in_out_partition_source (μ : Inside) (t : Tree) (hn : t.ids.Nodup) :
+    ((inVolumeTreeAs Navis.Gen.InVolume.shape μ .IN t).nodes
+        ++ (inVolumeTreeAs Navis.Gen.InVolume.shape μ .OUT t).nodes).Perm t.nodes
+    ∧ (∀ v, v ∈ (inVolumeTreeAs Navis.Gen.InVolume.shape μ .IN t).nodes ↔ v ∈ t.nodes ∧ μ v.pos = true)
+    ∧ (∀ v, v ∈ (inVolumeTreeAs Navis.Gen.InVolume.shape μ .OUT t).nodes ↔ v ∈ t.nodes ∧ μ v.pos = false) := by
+  rw [inVolumeTreeAs_eq _ source_shape_ok, inVolumeTreeAs_eq _ source_shape_ok]
+  obtain ⟨h1, _, _, h4, h5⟩ := in_out_partition μ t hn
+  exact ⟨h1, h4, h5⟩
+
+/-- **Why the order matters.**  With the short-circuit evaluated *before* the inversion (the `OUT` inversion moved inside
+`if not all(in_v)`), a skeleton lying completely inside the volume is returned unchanged for `mode='OUT'`: `IN` and `OUT`
+both keep everything, they are not complementary. -/
+theorem shortcut_before_inversion_breaks_partition :
+    let s : Shape := { Shape.model with invertBeforeShortcut := some false }
+    let t : Tree := { nodes := [⟨1, ⟨1, 1, 1⟩⟩, ⟨2, ⟨3, 1, 1⟩⟩], conns := [⟨100, 2⟩] }
+    s.ok = false ∧ inVolumeTreeAs s (mem exCube) .IN t = t ∧ inVolumeTreeAs s (mem exCube) .OUT t = t
+      ∧ inVolumeTree (mem exCube) .OUT t = ⟨[], []⟩ := by decide
+
+/-- … and why skeletons must be subset by node id: by row position a sparse-id skeleton keeps the wrong rows -/
+theorem subset_by_position_keeps_wrong_nodes :
+    let s : Shape := { Shape.model with treeSubsetById := some false }
+    (inVolumeTreeAs s (mem exL) .IN exTree).ids = [3] ∧ (inVolumeTree (mem exL) .IN exTree).ids = [70, 3, 5] := by decide
+
+/-! ## 9. `in_volume_pyoc`: bounding box and ray consensus -/
+
+/-- **n_rays consensus.**  The loop `is_out[~is_out] = is_even` over any number of rays answers, for every point: inside the
+bounding box **and** every ray counted an odd number of crossings. -/
+theorem pyoc_consensus {α : Type} (inBBox : α → Bool) (rays : List (α → Bool)) (pts : List α) :
+    pyocLoop inBBox rays pts = pts.map fun p => inBBox p && rays.all fun r => r p :=
+  pyocLoop_eq inBBox rays pts
+
+/-- **Any number of exact rays is exact.**  If the solid lies in the bounding box and every ray is right about every point of
+the box, the answer is the exact mask — for 1, 2, 3, … rays alike. -/
+theorem pyoc_exact_of_exact_rays {α : Type} (μ inBBox : α → Bool) (rays : List (α → Bool)) (pts : List α)
+    (hne : rays ≠ []) (hbb : ∀ p, μ p = true → inBBox p = true)
+    (hr : ∀ r ∈ rays, ∀ p, inBBox p = true → r p = μ p) :
+    pyocLoop inBBox rays pts = pts.map μ := by
+  rw [pyoc_consensus]
+  apply List.map_congr_left
+  intro p _
+  cases hb : inBBox p with
+  | false =>
+    cases hμ : μ p with
+    | false => rfl
+    | true => rw [hbb p hμ] at hb; cases hb
+  | true =>
+    have : (rays.all fun r => r p) = μ p := by
+      cases rays with
+      | nil => exact absurd rfl hne
+      | cons r t =>
+        have h1 : ∀ r' ∈ r :: t, r' p = μ p := fun r' h' => hr r' h' p hb
+        cases hμ : μ p with
+        | true =>
+          apply List.all_eq_true.mpr
+          intro r' h'; rw [h1 r' h', hμ]
+        | false =>
+          have := h1 r (List.mem_cons_self ..)
+          simp [List.all_cons, this, hμ]
+    simp [this]
+
+/-- **More rays never add points**: a point reported inside with `rays ++ more` is reported inside with `rays`. -/
+theorem pyoc_more_rays_never_add_points {α : Type} (inBBox : α → Bool) (rays more : List (α → Bool)) (pts : List α)
+    (i : Nat) (h : (pyocLoop inBBox (rays ++ more) pts)[i]? = some true) :
+    (pyocLoop inBBox rays pts)[i]? = some true := by
+  rw [pyoc_consensus] at h ⊢
+  rw [List.getElem?_map] at h ⊢
+  cases hp : pts[i]? with
+  | none => rw [hp] at h; cases h
+  | some p =>
+    rw [hp] at h
+    simp only [Option.map_some, Option.some.injEq, Bool.and_eq_true, List.all_append] at h ⊢
+    exact ⟨h.1, h.2.1⟩
+
+example : pyocLoop (fun i : Nat => i < 3) [fun i => i != 1, fun i => i != 2] [0, 1, 2, 3] = [true, false, false, false] := by
+  decide
 
 end Navis.Props.C18
